@@ -158,8 +158,11 @@ def adv_check(pid, tier, replay, plan):
         "other_property_notes": len(others),
         "exhaustive": False,
     }
-    vf.write_evidence(pid, tier, "model_checking", cov, plan["assumptions"] + COMMON_ASSUMPTIONS, time.time() - t0,
-                      violations=len(reported))
+    LAST.clear()
+    LAST.update(cov=cov, assumptions=plan["assumptions"] + COMMON_ASSUMPTIONS, violations=len(reported))
+    if plan.get("write_evidence", True):
+        vf.write_evidence(pid, tier, "model_checking", cov, plan["assumptions"] + COMMON_ASSUMPTIONS, time.time() - t0,
+                          violations=len(reported))
     print("%s %s: model states=%d, %d scenarios run on the real code, %d traces / %d events validated, %d violation(s), %.0fs"
           % (pid, tier, states, len(scenarios), ntr, nlines, len(reported), time.time() - t0))
     return rc
@@ -178,6 +181,7 @@ UNI = {"cfg": {"min": 200000, "max": 600000, "life": 1800, "unicast": True}}
 JIT = {"cfg": {"min": 200000, "max": 600000, "life": 1800}, "jitter": [0, 1, -1, 0, 2]}
 
 PLANS = {}
+LAST = {}
 
 PLANS["C06"] = dict(
     mc=[("c06", dict(Hosts='{"h1"}', Kinds="{}", MaxIn=3, MaxT=14, MinIv=7, MaxIv=8),
@@ -261,6 +265,68 @@ def _c09_fixed():
 
 
 PLANS["C09"]["fixed"] = _c09_fixed()
+
+
+PLANS["C10"] = dict(
+    write_evidence=False,
+    mc=[("c10", dict(Hosts='{"h1"}', Kinds='{"timeout", "readerr"}', MaxIn=3, MaxT=6, Retries=2, WriteFaults="TRUE",
+                     LinkFaults="TRUE", MaxHolds=0), dict(MaxIn=4, MaxT=7, MaxHolds=1))],
+    env=[("a", dict(Srcs='{"h1", "unspec"}', Kinds='{"timeout", "readerr_other", "readerr_sys", "link"}',
+                    FailDsts='{"h1", "allnodes"}', Terms="{TRUE}", MaxEv=3, MaxT=7), dict(MaxEv=4, MaxT=8),
+          [DEF, FAST, dict(cfg=dict(DEF["cfg"], mode="mon")), dict(cfg=dict(DEF["cfg"], dials=["ok", "lnr", "ok"]))])],
+    cap_quick=1500, cap_thorough=12000,
+    fixed=[],
+    nrand=40, nrand_thorough=800, rand_variants=[DEF, FAST, dict(cfg=dict(DEF["cfg"], mode="mon"))],
+    rand=lambda rng: rand_faults(rng),
+    nontrivial=lambda s: any(x["op"] in ("timeout", "readerr", "link", "failw") for x in s["steps"]),
+    rule="session level: TLC-enumerated histories over {RS, receive timeout, read error (plain / syscall), link event, "
+         "failing transmit, stop} for advertiser and monitor, runs of 1..6 consecutive timeouts, random fault storms; "
+         "non-trivial = at least one injected fault",
+    assumptions=["faults are injected at the Conn boundary (ReadFrom / WriteTo results) and on the link-state channel"],
+)
+
+
+def rand_faults(rng):
+    steps, t = [], 0
+    for i in range(rng.randrange(3, 30)):
+        t += rng.choice([0, 0, 50, 100, 150, 200, 250, 500, 1000, 3000])
+        steps.append({"op": "adv", "to": t})
+        k = rng.choice(["rs", "rs", "timeout", "timeout", "timeout", "readerr", "link", "failw", "okw"])
+        if k == "rs":
+            steps.append({"op": "rs", "src": rng.choice(["fe80::a1", "unspec"])})
+        elif k == "timeout":
+            for _ in range(rng.choice([1, 1, 2, 4, 5])):
+                steps.append({"op": "timeout"})
+        elif k == "readerr":
+            steps.append({"op": "readerr", "class": rng.choice(["other", "sys", "sys"])})
+        elif k == "link":
+            steps.append({"op": "link"})
+        elif k == "failw":
+            steps.append({"op": "failw", "dst": rng.choice(["fe80::a1", "allnodes"]), "class": rng.choice(["other", "sys"])})
+        else:
+            steps.append({"op": "failw", "dst": "fe80::a1", "class": ""})
+            steps.append({"op": "failw", "dst": "allnodes", "class": ""})
+    steps.append({"op": "adv", "to": t + 8000})
+    if rng.random() < 0.5:
+        steps.append({"op": "cancel", "term": rng.random() < 0.5})
+    return steps
+
+
+def _c10_fixed():
+    out = []
+    for mode in ("adv", "mon"):
+        for k in range(1, 7):
+            steps = [{"op": "adv", "to": 5000}] + [{"op": "timeout"} for _ in range(k)] + \
+                    [{"op": "adv", "to": 5600}, {"op": "rs", "src": "fe80::a1"}, {"op": "adv", "to": 9000}]
+            out.append({"cfg": dict(DEF["cfg"], mode=mode), "steps": steps, "src": "timeouts-%d" % k})
+            # timeouts interleaved with a valid message: the budget starts again
+            steps = [{"op": "adv", "to": 5000}] + [{"op": "timeout"} for _ in range(4)] + [{"op": "adv", "to": 5400}, {"op": "rs", "src": "fe80::a1"}] + \
+                    [{"op": "timeout"} for _ in range(min(k, 4))] + [{"op": "adv", "to": 9000}]
+            out.append({"cfg": dict(DEF["cfg"], mode=mode), "steps": steps, "src": "timeouts-reset-%d" % k})
+    return out
+
+
+PLANS["C10"]["fixed"] = _c10_fixed()
 
 
 def make(pid):
